@@ -9,6 +9,13 @@ COMMON_NOTE = ("Trusted: Coq 8.16.1 kernel and its VM (vm_compute; no native_com
                "(virtual clock, scheduler, canonicalisation, case printer). ")
 # id -> (text, note, technique, design_ref)
 CLAIMED = {
+ "C17": ("Theorems: for every finite prefix set and key the first match over the reverse-sorted prefixes is the longest registered prefix of the key "
+         "(own total order on strings, insertion sort, sortedness invariant); multi-key reads re-assemble positionally for any routing and any "
+         "positional backends; a disabled command never reaches the backend and yields the default-shaped result; enable/disable in one task's "
+         "context is invisible to other tasks. Recording Memory backends under generated prefix sets, every facade command under every way of "
+         "disabling, and real parent/child asyncio tasks are compared with the model on every run.",
+         "contextvars copy-at-task-creation is modelled; ASCII strings; enable_by_default=True.",
+         "Coq proof (sorted-list + prefix-order lemmas, assoc-list induction) + differential correspondence", "3/C17"),
  "C13": ("Theorems: for every pattern and key (all characters) the matcher Memory.scan builds (re.escape, '\\*' -> '.*', compile, fullmatch) always "
          "compiles and equals the glob matcher; scan/delete_match select exactly the matching live keys; inside a transaction the selection equals the glob "
          "filter of the merged view for every split of keys between overlay, store and pending deletes. Real scan/get_match/delete_match/@invalidate, "
